@@ -9,7 +9,7 @@
     order ([perm_oracle sh]). *)
 From Coq Require Import List NArith ZArith Bool Arith Permutation.
 From Verif Require Import Dag.Model Dag.Facts Dag.KahnProofs Dag.PushProofs Dag.LayoutProofs Dag.Summary
-     Dag.Ops Dag.OpsProofs Dag.RevLayout Gen.DagsSrc Dag.DagGen Dag.CircleLegacy.
+     Dag.Ops Dag.OpsProofs Dag.RevLayout Dag.SeqLayout Gen.DagsSrc Dag.DagGen Dag.CircleLegacy.
 Import ListNotations.
 
 (** The checker accepts exactly the graphs all of whose edge targets are
@@ -382,3 +382,52 @@ Example ex_rev_layout :
   | None => False
   end.
 Proof. vm_compute. repeat split; repeat constructor. Qed.
+
+(** * Round 3: LayoutMap on a Map object that has been through other calls
+
+    The layout depends only on the Map's current orientation ([m]: its
+    graph, closure and critical sets) and on the layer numbers it currently
+    holds; for ANY valid layer numbers (critical edges strictly increasing,
+    below Nlayer: the Kahn layers after NewMap, the pushed layers after an
+    earlier LayoutMap, the mirrored ones after Map.Reverse) the result is a
+    layout of the current orientation, and the layer numbers left behind are
+    valid again - so every layout in a call sequence NewMap / Reverse /
+    LayoutMap / Layout / RevLayout is a layout. *)
+Theorem C19_layout_from_any_valid_layers : forall m, accepted m -> forall L0, pinv m L0 ->
+  exists v, layout_from gen_params m L0 = VwOk v /\
+    v_width v = m_nlayer m /\
+    map fst (v_nodes v) = keys (m_g m) /\
+    (forall k, In k (keys (m_g m)) -> (vx v k < v_width v)%nat /\ (0 <= vy v k < v_height v)%Z) /\
+    (forall a b, In a (keys (m_g m)) -> In b (keys (m_g m)) -> a <> b -> (vx v a, vy v a) <> (vx v b, vy v b)) /\
+    (forall u w, edge (m_g m) u w -> (vx v u < vx v w)%nat) /\
+    pinv m (map (fun k => (k, vx v k)) (keys (m_g m))).
+Proof. exact (layout_from_ok gen_params gen_params_ok). Qed.
+Print Assumptions C19_layout_from_any_valid_layers.
+
+Theorem C19_layout_map_is_layout_from : forall m,
+  layout_from gen_params m (m_lay0 m) = layout_map gen_params m.
+Proof. exact (layout_from_lay0 gen_params). Qed.
+Print Assumptions C19_layout_map_is_layout_from.
+
+(** Map.Reverse keeps the layer numbers valid for the opposite orientation. *)
+Theorem C19_reverse_keeps_layers_valid : forall (m m' : dmap) (L L' : lays),
+  m_nlayer m' = m_nlayer m ->
+  (forall v, In v (keys (m_g m')) -> In v (keys (m_g m))) ->
+  (forall u v, In v (m_crit_outs m' u) -> In u (m_crit_outs m v) /\ In u (keys (m_g m')) /\ In v (keys (m_g m'))) ->
+  (forall v, In v (keys (m_g m')) -> lget L' v = (m_nlayer m - 1 - lget L v)%nat) ->
+  pinv m L -> pinv m' L'.
+Proof. exact mirror_pinv. Qed.
+Print Assumptions C19_reverse_keeps_layers_valid.
+
+(** a -> b: NewMap, Reverse, LayoutMap draws b left of a (the reversed
+    orientation), and a second Reverse + LayoutMap draws a left of b again. *)
+Example ex_seq_reverse_layout :
+  match new_map sh_id [(0, [1]); (1, [])]%N, new_map sh_id (rev_graph sh_id [(0, [1]); (1, [])]%N) with
+  | MOk m, MOk mr =>
+      match layout_from gen_params mr (mirror_lays (m_nlayer m) (m_lay0 m)) with
+      | VwOk v => (vx v 1%N < vx v 0%N)%nat
+      | _ => False
+      end
+  | _, _ => False
+  end.
+Proof. vm_compute. repeat constructor. Qed.
